@@ -90,7 +90,7 @@ Section Recovered.
         * apply esi_pre, Hes.
         * clear -Irem HXF Hhits Hot_in. set_solver.
         * exact Hea_in.
-        * intros n _. rewrite Hrem2. clear -Hhits. set_solver.
+        * intros n _. rewrite Hrem2. clear -Hhits Irem. set_solver.
         * subst es'. cbn [active_power]. rewrite Epot. reflexivity.
         * subst es'. cbn [faulty_power]. rewrite Epot, Epea. reflexivity.
         * subst es'. cbn [fee_deduction]. rewrite Efea. reflexivity.
@@ -131,13 +131,14 @@ Section Recovered.
     destruct (add_active_sectors qs q1 resched) as [[[[[q3 ns] pw'] pl] fe]|] eqn:Ea;
       cbn [rbind]; [|discriminate].
     intros [= <- <-]. split; [|exact Irec].
-    destruct (add_active_sectors_inv qs tbl (F ∖ X) resched Hu Ift Ind) with (1 := IQ) (3 := Ea)
-      as (HQ3 & _).
-    - clear -IR. set_solver.
-    - clear. set_solver.
-    - replace L with (L ∖ nums_of resched ∪ nums_of resched); [exact HQ3|].
-      apply seteq_L. intros n. destruct (decide (n ∈ nums_of resched)) as [Hn|Hn].
-      + split; [intros _|clear -Hn; set_solver]. apply HXL, IR, Hn.
-      + clear -Hn. set_solver.
+    pose proof (add_active_sectors_inv qs tbl (F ∖ X) resched Hu Ift Ind) as HA.
+    assert (HRF : nums_of resched ## F ∖ X) by (clear -IR; set_solver).
+    specialize (HA HRF q1 q3 (L ∖ nums_of resched) ns pw' pl fe IQ).
+    assert (HRL : nums_of resched ## L ∖ nums_of resched) by (clear; set_solver).
+    destruct (HA HRL Ea) as (HQ3 & _).
+    replace L with (L ∖ nums_of resched ∪ nums_of resched); [exact HQ3|].
+    apply seteq_L. intros n. destruct (decide (n ∈ nums_of resched)) as [Hn|Hn].
+    - split; [intros _|clear -Hn; set_solver]. apply HXL, IR, Hn.
+    - clear -Hn. set_solver.
   Qed.
 End Recovered.
